@@ -4,6 +4,7 @@ Every step the specifications name is a module-level function or a method looked
 harness replaces the attribute by a logging wrapper for the duration of a `with patched(...)` block."""
 import contextlib
 import os
+import sys
 
 GUARD = 'PYTENET_VERIF'
 
@@ -12,11 +13,46 @@ def enabled():
     return os.environ.get(GUARD, '') == '1'
 
 
+class Missing(list):
+    """names of the attributes that were not found; .errors: exceptions raised by observer code (never by the original)"""
+    def __init__(self):
+        super().__init__()
+        self.errors = []
+
+
+def _guard(orig, factory, errors):
+    """The observer must never change what the library does.  If the wrapper built by `factory` raises (the signature of a private
+    helper changed, a local variable it reads is gone, a value is off the lattice ...), the original is called (or its result
+    returned if it had already run) and the error is recorded; an exception raised by the original itself propagates unchanged."""
+    def g(*a, **k):
+        call = {'done': False, 'exc': None, 'out': None}
+
+        def proxy(*aa, **kk):
+            try:
+                r = orig(*aa, **kk)
+            except BaseException as ex:
+                call['exc'] = ex
+                raise
+            call['done'], call['out'] = True, r
+            return r
+        try:
+            return factory(proxy)(*a, **k)
+        except BaseException as ex:
+            if call['exc'] is ex or isinstance(ex, (KeyboardInterrupt, SystemExit)) or type(ex).__name__ == '_Timeout':
+                raise
+            errors.append(f'{type(ex).__name__}: {str(ex)[:80]}')
+            if call['done']:
+                return call['out']
+            return orig(*a, **k)
+    return g
+
+
 @contextlib.contextmanager
-def patched(*triples):
-    """triples: (owner, attribute name, factory(original) -> wrapper).  Missing attributes are skipped and reported."""
+def patched(*triples, trace=None):
+    """triples: (owner, attribute name, factory(original) -> wrapper).  Missing attributes are skipped and reported.  If observer
+    code raised, a `hook_error` record is appended to `trace` (the trace is then validated on its result clauses only)."""
     saved = []
-    missing = []
+    missing = Missing()
     try:
         if enabled():
             for owner, name, factory in triples:
@@ -25,8 +61,19 @@ def patched(*triples):
                     continue
                 orig = owner.__dict__[name] if name in getattr(owner, '__dict__', {}) else getattr(owner, name)
                 saved.append((owner, name, orig))
-                setattr(owner, name, factory(orig))
+                setattr(owner, name, _guard(orig, factory, missing.errors))
         yield missing
     finally:
         for owner, name, orig in reversed(saved):
             setattr(owner, name, orig)
+        if missing.errors and trace is not None:
+            trace.append(dict(ev='hook_error', what=missing.errors[0], n=len(missing.errors)))
+
+
+def caller_locals():
+    """locals of the library function that called the wrapped attribute (frames of this module - the guard - are skipped);
+    to be called directly from a wrapper"""
+    f = sys._getframe(2)
+    while f is not None and f.f_code.co_filename == __file__:
+        f = f.f_back
+    return f.f_locals if f is not None else {}
